@@ -102,7 +102,10 @@ class Cluster:
     def push(self, gap):
         t = T0 if self.newest is None else self.newest + H(gap)
         v = self.next_value(gap)
-        self.out.push_data(payload_value(self.cfg.get("payload", "scalar"), v), t)
+        try:
+            self.out.push_data(payload_value(self.cfg.get("payload", "scalar"), v), t)
+        except Exception as e:  # noqa - a publication with a strictly newer time must always be accepted
+            self.viol.append(("push", dict(kind="publication_failed", error=type(e).__name__), f"push at {float(hrs(t))} failed: {type(e).__name__}: {str(e)[:120]}"))
         self.newest, self.last_gap = t, gap
         self.source.publish(hrs(t), Fr(v))  # Fr(float) is exact
 
